@@ -272,6 +272,7 @@ func runW18(c *ctx, cfg wcfg, h1 string, failAt string, mode string, st2, op2 by
 	var fresh *wsutil.Writer
 	dstB := newRecWriter()
 	ok := true
+	poolSize := 0
 	func() {
 		defer func() {
 			if recover() != nil {
@@ -284,6 +285,7 @@ func runW18(c *ctx, cfg wcfg, h1 string, failAt string, mode string, st2, op2 by
 			fresh = wsutil.NewWriterBuffer(dstB, ws.State(st2), ws.OpCode(op2), make([]byte, a.VerifRawLen()))
 		case "pool":
 			size := a.Size()
+			poolSize = size
 			wsutil.PutWriter(a)
 			a = wsutil.GetWriter(dstA, ws.State(st2), ws.OpCode(op2), size)
 			fresh = wsutil.NewWriterBuffer(dstB, ws.State(st2), ws.OpCode(op2), make([]byte, a.VerifRawLen()))
@@ -316,7 +318,13 @@ func runW18(c *ctx, cfg wcfg, h1 string, failAt string, mode string, st2, op2 by
 						freshPanics = true
 					}
 				}()
-				wsutil.NewWriterBuffer(newRecWriter(), ws.State(st2), ws.OpCode(op2), make([]byte, a.VerifRawLen()))
+				if mode == "pool" {
+					// the fresh counterpart of a put/get cycle is GetWriter on its own (tiny sizes: the
+					// buffer cannot hold the new side's header, with or without the cycle)
+					wsutil.GetWriter(newRecWriter(), ws.State(st2), ws.OpCode(op2), poolSize)
+				} else {
+					wsutil.NewWriterBuffer(newRecWriter(), ws.State(st2), ws.OpCode(op2), make([]byte, a.VerifRawLen()))
+				}
 			}()
 			res := "panic"
 			if freshPanics {
@@ -548,6 +556,13 @@ func runC18(c *ctx) {
 		cfg2 := wcfg{"u64", st2, byte(1 + c.rng.Intn(2)), "-"}
 		h2 := c.randHistory(cfg2, 1+c.rng.Intn(6), j%4 == 0)
 		runW18(c, cfg, h1, fail, []string{"reset", "reset", "pool"}[c.rng.Intn(3)], st2, cfg2.op, h2)
+		if j%3 == 0 {
+			// writers whose payload size is a power of two are really kept by the pool: PutWriter, then
+			// GetWriter of the same class hands the SAME object back, reset
+			pc := cfg
+			pc.ctor = []string{"s128", "s256", "s4096", "s65536"}[(j/3)%4]
+			runW18(c, pc, c.randHistory(pc, 1+c.rng.Intn(6), j%2 == 0), fail, "pool", st2, cfg2.op, h2)
+		}
 		// the quick opcode reset is covered by histories containing "ro"
 		runWH(c, "WH", cfg, strings.TrimSuffix(h1, ",fl")+",ro"+strconv.Itoa(int(cfg2.op))+","+h2, "-")
 	}
